@@ -28,7 +28,7 @@ import (
 // another user) and users whose credit is exhausted, who expired or were deleted are cut off.
 
 type c16Op struct {
-	K    string  `json:"k"` // session traffic collect commit upload closesession topup exhaust expire delete
+	K    string  `json:"k"` // session traffic collect commit upload closesession proxyfail topup exhaust expire delete
 	U    int     `json:"u,omitempty"`
 	I    int     `json:"i,omitempty"` // client session index
 	N    int     `json:"n,omitempty"` // bytes / number of connections
@@ -312,6 +312,7 @@ func c16Inner(sc c16Scenario) (vk.Result, error) {
 		return nil
 	}
 
+	serverClosed := false
 	var exec func(op c16Op) (afterUpload bool, err error)
 	exec = func(op c16Op) (bool, error) {
 		switch op.K {
@@ -366,6 +367,27 @@ func c16Inner(sc c16Scenario) (vk.Result, error) {
 				}
 				synctest.Wait()
 			}
+		case "proxyfail":
+			// the proxy target cannot be reached when the session's next stream arrives: the server closes the
+			// (live) session itself and tells the client so
+			if len(seshs) == 0 {
+				return false, nil
+			}
+			s := seshs[op.I%len(seshs)]
+			if s.sesh.IsClosed() {
+				return false, nil
+			}
+			d, ok := srv.sta.ProxyDialer.(*vk.Dialer)
+			if !ok {
+				return false, fmt.Errorf("harness: proxy dialer is not a vk.Dialer")
+			}
+			d.SetFail(true)
+			if st, err := s.sesh.OpenStream(); err == nil {
+				st.Write([]byte{0})
+				synctest.Wait()
+			}
+			d.SetFail(false)
+			serverClosed = true
 		case "collect":
 			srv.sta.Panel.updateUsageQueue()
 		case "commit":
@@ -489,6 +511,9 @@ func c16Inner(sc c16Scenario) (vk.Result, error) {
 	if sc.Bolt {
 		res.Labels = append(res.Labels, "bolt-manager")
 	}
+	if serverClosed {
+		res.Labels = append(res.Labels, "server-closed-a-live-session")
+	}
 	for _, m := range models {
 		if m.terminatedEver {
 			res.Labels = append(res.Labels, "user-terminated")
@@ -519,8 +544,10 @@ func c16Gen(rt *rapid.T) c16Scenario {
 		case k < 80:
 			// two rounds at once, as regularQueueUpload may do
 			sc.Ops = append(sc.Ops, c16Op{K: "collect", Par: []c16Op{{K: "commit"}, {K: "collect"}, {K: "commit"}}})
-		case k < 86:
+		case k < 83:
 			sc.Ops = append(sc.Ops, c16Op{K: "closesession", I: rapid.IntRange(0, nsesh-1).Draw(rt, "ci")})
+		case k < 86:
+			sc.Ops = append(sc.Ops, c16Op{K: "proxyfail", I: rapid.IntRange(0, nsesh-1).Draw(rt, "pi")})
 		case k < 91:
 			sc.Ops = append(sc.Ops, c16Op{K: "topup", U: rapid.IntRange(0, sc.Users-1).Draw(rt, "tu"), N: rapid.IntRange(0, 1).Draw(rt, "dir"), Amt: rapid.Int64Range(1, 1000000).Draw(rt, "amt")})
 		case k < 95:
